@@ -62,6 +62,7 @@ type Result struct {
 }
 
 type Ctx struct {
+	KeepDown map[string]bool // nodes that stay down in the fault-free period (a majority must remain)
 	C    *cluster.Cluster
 	M    *mon.Monitor
 	R    *rand.Rand
@@ -247,7 +248,7 @@ func (x *Ctx) Quiesce(bound time.Duration) bool {
 	time.Sleep(2 * time.Millisecond)
 	for _, id := range x.C.IDs() {
 		n := x.C.Node(id)
-		if !n.IsUp() {
+		if !n.IsUp() && !x.KeepDown[id] {
 			n.WaitDown(time.Second)
 			if err := n.Restart(); err != nil {
 				x.Note("restart %s failed: %v", id, err)
